@@ -4,7 +4,7 @@ func init() {
 	props["C15"] = cfg("./c15", true, withShards(2, 16), withAssume(
 		"schedules are sampled (generated programs and perturbations, each concurrent program run twice under the race detector), not enumerated",
 		"the obligations that follow a provider Shutdown (everything shut down exactly once, no-op handles, nothing delivered or exported for later telemetry calls) are asserted only after a Shutdown call with a live context has returned nil (MeterProvider: nil or ErrReaderShutdown); in concurrent programs only once every Shutdown call issued before that return has itself returned",
-		"a Shutdown with an already-cancelled context, or one that returned an error, establishes only the <= 1 bound and crash/hang freedom",
+		"a Shutdown with an already-cancelled (or already-expired) context, or one that returned an error, establishes only the <= 1 bound and crash/hang freedom",
 		"every processor is registered at most once; the == 1 shutdown count of exporters behind the stock span processors is asserted only in programs without cancelled-context Shutdown calls (they are shut down from a goroutine then)",
 		"'nothing more is exported' is read per span/record: one whose End/Emit was issued after the provider was down must never reach a processor or exporter; a batch processor still draining earlier telemetry is not a violation",
 		"blocks-forever is decided by a 30 s per-case watchdog plus the driver's goroutine dump",
